@@ -71,6 +71,19 @@ def ensure_build():
             b.ok = False
             b.gen_ok = False
             b.failed_files.append('gen/*')
+        # handlers of /repo for which the translator has no model: only the
+        # cleveref ones are expected (DESIGN.md section 8); anything else
+        # means that the model no longer represents the code
+        try:
+            un = [x.strip() for x in open(os.path.join(COQ, 'gen', 'unmodelled.txt'))
+                  if x.strip()]
+        except OSError:
+            un = []
+        extra = [x for x in un if not x.startswith('yalafi.packages.cleveref.')]
+        if extra:
+            b.ok = False
+            b.failed_files.append('gen/Catalogue.v')
+            b.log += ('\n*** handlers of /repo without a model: %s\n' % ', '.join(extra))
         mk = os.path.join(COQ, 'Makefile')
         cp = os.path.join(COQ, '_CoqProject')
         if (not os.path.exists(mk)
